@@ -1,5 +1,6 @@
 import Varpulis.Lemmas.Zdd
 import Varpulis.Lemmas.ZddTable
+import Varpulis.Lemmas.ZddIter
 /-!
 # C06 — ZDD operations implement set-family algebra exactly
 
@@ -159,6 +160,19 @@ theorem zdd_pwo_refines (self : ZddS) (hs : self.OK) (var : Nat) :
 theorem zdd_count_contains_refine (self : ZddS) (hs : self.OK) (q : List Nat) :
     self.count = some (Zdd.count self.den) ∧ self.contains q = some (Zdd.contains self.den (normalize q)) :=
   ⟨ZddS.count_spec hs, ZddS.contains_spec hs q⟩
+
+/-! ### iteration and `count_uncached` at table level -/
+
+/-- `arena.iter(h).collect()` through the `ArenaIterator` step machine is the family in `sets` order -/
+theorem arena_iteration_refines (s : Arena) (hs : s.OK) (a : Ref) (ha : Valid s.table a) :
+    s.iterAll a = some (sets (treeOf s.table a)) := Arena.iterAll_spec hs ha
+
+/-- `Zdd::iter().collect()` / `to_sets` through the `ZddIterator` step machine -/
+theorem zdd_iteration_refines (z : ZddS) (hz : z.OK) : z.toSets = some (sets z.den) := ZddS.toSets_spec hz
+
+/-- `count_uncached` (per-call cache instead of `count_cache`) is the count of the denoted tree -/
+theorem arena_count_uncached_refines (s : Arena) (hs : s.OK) (a : Ref) (ha : Valid s.table a) :
+    s.countUncached a = some (Zdd.count (treeOf s.table a)) := Arena.countUncached_spec hs ha
 
 /-- every tree denoted by a standalone `Zdd` or an arena handle satisfies the ordering premise
 `Ord 0` of the tree-layer theorems above -/
